@@ -95,3 +95,31 @@ def tree_rich_case(rng, maxpix=40):
     if rng.random() < 0.7:
         c['npix'] = [0, 1]
     return c
+
+
+def peeking(structure, index=None, value=None):
+    """A user criterion that accepts everything but reads cached tree quantities while the tree is being rewritten."""
+    structure.level, structure.descendants, structure.get_npix(), structure.ancestor
+    if structure.parent is not None:
+        structure.parent.level, structure.parent.descendants
+    return True
+
+
+def with_peeking(kw):
+    """Add the peeking criterion to the keyword arguments of compute / prune."""
+    cur = kw.get('is_independent')
+    kw = dict(kw)
+    kw['is_independent'] = ([] if cur is None else (list(cur) if isinstance(cur, (list, tuple)) else [cur])) + [peeking]
+    return kw
+
+
+def other_dendrogram_activity(rng):
+    """Unrelated work on other dendrograms (kept alive by the caller): must not influence the one under test."""
+    from astrodendro import Dendrogram
+    n = rng.randint(3, 9)
+    vals = list(range(1, n + 1))
+    rng.shuffle(vals)
+    o = Dendrogram.compute(np.array(vals, dtype=float), min_value=0, min_delta=rng.choice([0, 1, 2, 5]), min_npix=rng.choice([0, 2, 3, 4]))
+    if rng.random() < 0.6:
+        o.prune(min_delta=rng.choice([0, 3, 6]), min_npix=rng.choice([0, 2, 5]))
+    return o
